@@ -489,8 +489,28 @@ class GenericPolicy:
     def __init__(self, positive=()):
         self.log = []
         self.positive = set(positive)
+        self.eq_events = []      # equalities between symbolic values the executed code branched on (decided 'not equal')
+
+    @staticmethod
+    def describe(x):
+        """('var', name) for a bare symbol, ('num', 'p/q') for a number, None for anything else"""
+        import z3
+        if x.is_numeric():
+            return ('num', str(x.n))
+        if not x.d and z3.is_const(x.n) and x.n.decl().kind() == z3.Z3_OP_UNINTERPRETED:
+            return ('var', x.n.decl().name())
+        return None
 
     def __call__(self, kind, lhs, rhs):
+        if kind in ('eq', 'ne'):
+            ev = (self.describe(lhs), self.describe(rhs))
+            if ev not in self.eq_events:
+                self.eq_events.append(ev)
+                import os
+                if os.environ.get('VERIF_EQ_LOG'):
+                    import traceback
+                    fr = [f for f in traceback.extract_stack() if '/repo/compmech/' in f.filename]
+                    open(os.environ['VERIF_EQ_LOG'], 'a').write('%s %s :: %s\n' % (ev, (lhs, rhs) if None in ev else '', '%s:%d %s' % (fr[-1].filename, fr[-1].lineno, fr[-1].line) if fr else '?'))
         if kind == 'ne':
             r = True
         elif kind == 'eq':
